@@ -42,7 +42,7 @@ struct Model {
             pend = MobilizedBody::Pin(matter.Ground(), Transform(Vec3(0, 0, 1)), body, Transform(Vec3(0, 1, 0)));
             pend.setDefaultAngle(0.7);
         }
-        if (k == "loop") {
+        if (k == "loop" || k == "loopmany") {
             link2 = MobilizedBody::Pin(pend, Transform(Vec3(0, 0, 0)), body, Transform(Vec3(0, 1, 0)));
             link2.setDefaultAngle(0.9);
             // closes a loop: point on link2 at fixed distance from a ground point
@@ -50,6 +50,15 @@ struct Model {
             ball = MobilizedBody::Ball(matter.Ground(), Transform(Vec3(3, 0, 0)), body, Transform(Vec3(0, 0.3, 0)));
             driven = MobilizedBody::Slider(matter.Ground(), Transform(Vec3(0, 3, 0)), body, Transform());
             steady = Motion::Steady(driven, 0.75);
+        }
+        if (k == "loopmany") {
+            // eight particles each held at its place by a Ball: 24 more constraint equations whose errors stay at zero, so that
+            // the RMS norm of all errors is much smaller than the largest one (the two norms give different verdicts)
+            for (int i = 0; i < 8; ++i) {
+                const Vec3 p(5 + i, 0.5 * i, -1);
+                MobilizedBody::Translation part(matter.Ground(), Transform(p), body, Transform());
+                Constraint::Ball(matter.Ground(), p, part, Vec3(0));
+            }
         }
     }
 };
@@ -197,7 +206,7 @@ static string manifold(const Model& m, const Integrator& integ, const State& s) 
     const bool inf = integ.isInfinityNormInUse();
     const Real qe = rmsOrInf(s.getQErr(), inf), ue = rmsOrInf(s.getUErr(), inf);
     bool pres = true; Real quat = 0;
-    if (m.kind == "loop") {
+    if (m.kind == "loop" || m.kind == "loopmany") {
         pres = std::fabs(m.driven.getOneU(s, 0) - 0.75) <= 1e-12;
         if (!m.matter.getUseEulerAngles(s)) {
             Vec4 q = m.ball.getQ(s); quat = std::fabs(q.norm() - 1);
@@ -259,7 +268,7 @@ int main(int argc, char** argv) {
             State s0 = m.system.getDefaultState();
             if (p.has("euler") && p["euler"].boolean()) { m.matter.setUseEulerAngles(s0, true); m.system.realizeModel(s0); }
             m.slider.setOneU(s0, 0, p.has("u0") ? p["u0"].dbl() : 1.0);
-            if (m.kind == "loop") m.ball.setUToFitAngularVelocity(s0, Vec3(1.5, -0.7, 0.9));
+            if (m.kind == "loop" || m.kind == "loopmany") m.ball.setUToFitAngularVelocity(s0, Vec3(1.5, -0.7, 0.9));
             segT = 0; segQ = 0; segU = p.has("u0") ? p["u0"].dbl() : 1.0;
             std::unique_ptr<Integrator> integ(makeInteg(p["integ"].str(), m.system));
             const mj::Value& o = p["opts"];
